@@ -76,7 +76,8 @@ fn owns_c18(op: &Op) -> bool {
     matches!(op, Op::Tab | Op::SetTabStop | Op::ClearTabStop(_) | Op::Reset)
 }
 fn owns_c20(op: &Op) -> bool {
-    matches!(op, Op::DefineCharset(..) | Op::ShiftIn | Op::ShiftOut | Op::Draw(_))
+    // Reset: "G0 starts as Latin-1 and G1 as DEC Special Graphics" (also checked on the new screen)
+    matches!(op, Op::DefineCharset(..) | Op::ShiftIn | Op::ShiftOut | Op::Draw(_) | Op::Reset)
 }
 
 fn no_tune(_p: &mut Profile, _r: &mut Rng) {}
@@ -577,9 +578,34 @@ impl<'a> Observer for StepObs<'a> {
     fn needs_snap(&self, _actor: Actor, op: &Op) -> bool {
         (self.sp.owns)(&op.lower())
     }
-    fn init(&mut self, screen: &Screen, _snap: &Snapshot) -> Result<(), Violation> {
+    fn init(&mut self, screen: &Screen, snap: &Snapshot) -> Result<(), Violation> {
+        if self.sp.id == "C18" {
+            let want: std::collections::BTreeSet<u32> = (1..).map(|k| k * 8).take_while(|x| *x < snap.columns).collect();
+            let got: std::collections::BTreeSet<u32> = snap.tabstops.iter().copied().filter(|t| *t < snap.columns).collect();
+            if want != got {
+                return Err(Violation::new(
+                    "C18",
+                    "C18/initial_tab_stops",
+                    format!("a new {}-column screen must have stops at every 8th column {:?}; found {:?}", snap.columns, want, got),
+                    0,
+                ));
+            }
+        }
         if self.sp.id == "C20" {
             self.twin = Some(identity_copy(screen));
+            if snap.g0 != tables::lat1() || snap.g1 != tables::vt100() || snap.charset != 0 {
+                return Err(Violation::new(
+                    "C20",
+                    "C20/initial_charsets",
+                    format!(
+                        "a new screen must start with G0 = Latin-1, G1 = DEC Special Graphics, G0 selected; found G0 {} G1 {} selected G{}",
+                        ["Latin-1", "DEC graphics", "CP437", "VAX42", "?", "?", "?", "?", "?", "other"][which_table(&snap.g0) as usize],
+                        ["Latin-1", "DEC graphics", "CP437", "VAX42", "?", "?", "?", "?", "?", "other"][which_table(&snap.g1) as usize],
+                        snap.charset
+                    ),
+                    0,
+                ));
+            }
         }
         Ok(())
     }
